@@ -455,6 +455,6 @@ func observe(m api.Module) string {
 	for _, b := range tail {
 		th = th*31 + uint32(b)
 	}
-	return fmt.Sprintf("pre=%d post=%d aux=%d catch=%d tail=%d g=%d closed=%v size=%d",
-		rd(CellPre), rd(CellPost), rd(CellAux), rd(CellCatch), th, uint32(m.ExportedGlobal("g").Get()), m.IsClosed(), mem.Size())
+	return fmt.Sprintf("pre=%d post=%d aux=%d catch=%d atom=%d/%d tail=%d g=%d closed=%v size=%d",
+		rd(CellPre), rd(CellPost), rd(CellAux), rd(CellCatch), rd(CellAtom), rd(CellAtomR), th, uint32(m.ExportedGlobal("g").Get()), m.IsClosed(), mem.Size())
 }
